@@ -198,6 +198,25 @@ func init() {
 	reg("(reflect.rtype).NumMethod", func(fr *frame, args []value) value {
 		return fr.i.prog.MethodSets.MethodSet(args[0].(rtype).t).Len()
 	})
+	// Type.MethodByName: (Method, found). Only the name and the found flag are modelled (the method's
+	// Type / Func / Index stay zero); the method set is go/types' (exported methods of interfaces and
+	// of concrete types alike).
+	regPrefix("(reflect.rtype).MethodByName", func(fr *frame, fn *ssa.Function, fname string, args []value) (value, bool) {
+		name, ok := args[1].(string)
+		if !ok {
+			panic(unsupported("reflect.Type.MethodByName of a symbolic name"))
+		}
+		res := zeroResult(fn).(tuple)
+		ms := fr.i.prog.MethodSets.MethodSet(args[0].(rtype).t)
+		for i := 0; i < ms.Len(); i++ {
+			if obj := ms.At(i).Obj(); obj.Name() == name && obj.Exported() {
+				m := res[0].(structure)
+				m[0] = name
+				return tuple{m, true}, true
+			}
+		}
+		return tuple{res[0], false}, true
+	})
 	reg("(reflect.rtype).NumIn", func(fr *frame, args []value) value {
 		return args[0].(rtype).t.Underlying().(*types.Signature).Params().Len()
 	})
@@ -442,8 +461,33 @@ func init() {
 			}
 		}
 		np := sig.Params().Len()
-		if sig.Variadic() {
-			panic(unsupported("reflect.Call of variadic function"))
+		var variadic []value
+		variadicCall := sig.Variadic()
+		if variadicCall {
+			// reflect.Value.Call of a variadic function: the arguments beyond the fixed parameters
+			// are checked against the element type and packed into the final slice
+			np--
+			if len(in) < np {
+				panic("reflect: Call with too few input arguments")
+			}
+			et := sig.Params().At(np).Type().(*types.Slice).Elem()
+			for i := np; i < len(in); i++ {
+				at := rV2T(in[i]).t
+				if at == nil {
+					panic("reflect: Call using zero Value argument")
+				}
+				if !types.AssignableTo(at, et) {
+					panic(fmt.Sprintf("reflect: cannot use %s as type %s in Call", at, et))
+				}
+				v := rV2V(in[i])
+				if _, isI := et.Underlying().(*types.Interface); isI {
+					if _, srcI := at.Underlying().(*types.Interface); !srcI {
+						v = iface{at, v}
+					}
+				}
+				variadic = append(variadic, v)
+			}
+			in = in[:np]
 		}
 		if len(in) < np {
 			panic("reflect: Call with too few input arguments")
@@ -467,6 +511,9 @@ func init() {
 				}
 			}
 			cargs = append(cargs, v)
+		}
+		if variadicCall {
+			cargs = append(cargs, variadic)
 		}
 		res := call(fr.i, fr, token.NoPos, fn, cargs)
 		nr := sig.Results().Len()
